@@ -86,15 +86,17 @@ def hand_loop(rng):
     """A hand-threaded loop in the shape the lowering produces, with the variations the guards look at."""
     two_fields = rng.random() < 0.6
     int_iter = rng.random() < 0.5                  # loop-carried integer feeding the setup
-    chain = rng.choice(["cast", "add", "add_rev", "mul_add", "const", "opaque_pure", "impure", "outer", "add_rev"])
+    chain = rng.choice(["cast", "add", "add_rev", "mul_add", "const", "opaque_pure", "impure", "outer", "add_rev", "load", "load"])
+    nested_relaunch = rng.random() < 0.2           # the state is launched again inside an scf.if before the next setup
+    load_later = rng.random() < 0.3                # later setups take their value from memory, behind a store
     double_launch = rng.random() < 0.15            # the new state is launched twice: three uses of one state
     launch_first = rng.random() < 0.12             # a launch in front of the setup (guard)
     n_launch = rng.choice([1, 1, 2, 3])
     post = rng.choice(["none", "launch", "setup_all_launch", "setup_part_launch", "call_launch", "launch", "if_launch"])
     pre_setup = rng.random() < 0.8
     L = []
-    params = ["%x : i32", "%v : i32", "%lb : index", "%ub : index", "%st : index", "%c : i1"]
-    kinds = ["val", "val", "lb", "ub", "step", "cond"]
+    params = ["%x : i32", "%v : i32", "%lb : index", "%ub : index", "%st : index", "%c : i1", "%buf : memref<?xi32>"]
+    kinds = ["val", "val", "lb", "ub", "step", "cond", "val"]
     flds = ["A", "B"] if two_fields else ["A"]
     L.append(f'  %s0 = accfg.setup "acc" to (' + ", ".join(f'"{f}" = %v : i32' for f in flds) + f') : {ST}')
     if not pre_setup:
@@ -123,6 +125,13 @@ def hand_loop(rng):
     elif chain == "opaque_pure":
         B.append('%w2 = "test.pureop"(%w) : (i32) -> i32')
         val = "%w2"
+    elif chain == "load":
+        # the register value comes from memory; a store to the same location sits in front of the load or
+        # later in the body (the next iteration's descriptor)
+        if rng.random() < 0.5:
+            B.append("memref.store %x, %buf[%i] : memref<?xi32>")
+        B.append("%w2 = memref.load %buf[%i] : memref<?xi32>")
+        val = "%w2"
     elif chain == "impure":
         B.append('%w2 = "test.op"(%w) : (i32) -> i32')
         val = "%w2"
@@ -137,11 +146,20 @@ def hand_loop(rng):
     cur = "%s1"
     for j in range(n_launch):
         if j > 0:
-            B.append(f'%sx{j} = accfg.setup "acc" from {cur} to ("A" = {rng.choice(["%v", "%x", "%w"])} : i32) : {ST}')
+            nv = rng.choice(["%v", "%x", "%w"])
+            if load_later:
+                B.append(f"memref.store %v, %buf[%i] : memref<?xi32>")
+                B.append(f"%ld{j} = memref.load %buf[%i] : memref<?xi32>")
+                nv = f"%ld{j}"
+            B.append(f'%sx{j} = accfg.setup "acc" from {cur} to ("A" = {nv} : i32) : {ST}')
             cur = f"%sx{j}"
         B += [_launch(f"%t{j}", cur, lv="%x" if rng.random() < 0.3 else None), _await(f"%t{j}")]
         if double_launch and j == 0:
             B += [_launch("%td", cur), _await("%td")]
+        if nested_relaunch and j < n_launch - 1:
+            B += ["scf.if %c {", "  " + _launch(f"%tn{j}", cur), "  " + _await(f"%tn{j}"), "  scf.yield", "}"]
+    if chain == "load" and rng.random() < 0.6:
+        B.append("memref.store %v, %buf[%i] : memref<?xi32>")
     if int_iter:
         B.append("%k1 = arith.addi %k0, %v : i32")
     B.append(f"scf.yield {cur}" + (", %k1" if int_iter else "") + f" : {ST}" + (", i32" if int_iter else ""))
